@@ -70,6 +70,14 @@ Proof.
       apply decides_head. congruence.
     + replace RFuel with (outcome_of (check_path f (abs_of (removelast c) ++ raw))) by (rewrite E; reflexivity).
       apply decides_head. congruence.
+  - destruct (check_path f (abs_of d ++ raw)) eqn:E.
+    + replace (RHit c) with (outcome_of (check_path f (abs_of d ++ raw))) by (rewrite E; reflexivity).
+      apply decides_head. congruence.
+    + apply decides_cons_miss; auto. apply try_libs_decides.
+    + replace RHard with (outcome_of (check_path f (abs_of d ++ raw))) by (rewrite E; reflexivity).
+      apply decides_head. congruence.
+    + replace RFuel with (outcome_of (check_path f (abs_of d ++ raw))) by (rewrite E; reflexivity).
+      apply decides_head. congruence.
   - destruct (check_path f (abs_of cwd ++ raw)) eqn:E.
     + replace (RHit c) with (outcome_of (check_path f (abs_of cwd ++ raw))) by (rewrite E; reflexivity).
       apply decides_head. congruence.
@@ -804,7 +812,7 @@ Qed.
 
 (* ------------------------------------------------------------------ witnesses *)
 Definition mk_op (k : kind) (p : list comp) (s : sel) : op :=
-  {| o_noj := false; o_term := T k p s |}.
+  {| o_src := SDefault; o_term := T k p s |}.
 Definition code (id : N) (strict : list term) (lz : list (list term)) : blob :=
   {| bl_utf8 := true; bl_chars := 10; bl_bytes := 11;
      bl_body := Some {| b_id := id; b_strict := strict; b_lazy := lz |} |}.
